@@ -348,6 +348,45 @@ def check(res, ctx, keys, label, kinds=('identity', 'shared')):
                                   '%s: %s is a closure made once when the module is imported (%s = %s), and the %s = %s of its enclosing scope is %s - '
                                   'one object shared by every call of the closure, so what one caller does with the result changes what later '
                                   'calls return' % (label, nm, nm, src(cnode)[:40], lname, src(lit)[:40], how), func=key[1])
+        # RP.shared: a decorator (factory) of the package applied to this function: the closure it puts in the function's place is made once,
+        # when the module is imported, and a mutable of the decorator's scopes that the closure hands out is shared by every call
+        for d in getattr(f, 'decorator_list', []):
+            target = d.func if isinstance(d, ast.Call) else d
+            r = ctx.model.resolve_attr_chain(m, target) if isinstance(target, (ast.Name, ast.Attribute)) else None
+            if r is None or r[0] != 'func' or not isinstance(r[2], ast.FunctionDef):
+                continue
+            gm, g = r[1], r[2]
+            scopes = [g] + [x for x in ast.walk(g) if isinstance(x, ast.FunctionDef) and x is not g]
+            for sc in scopes:
+                inner = [x for x in ast.walk(sc) if isinstance(x, ast.FunctionDef) and x is not sc]
+                if not inner:
+                    continue
+                for lname, stores in _bindings(sc).items():
+                    if len(stores) != 1 or stores[0][0] != 'assign' or stores[0][1] is None:
+                        continue
+                    lit = stores[0][1]
+                    value_like = isinstance(lit, (ast.List, ast.Set)) and all(isinstance(e_, ast.Constant) for e_ in lit.elts) or \
+                        isinstance(lit, ast.Dict) and all(isinstance(e_, ast.Constant) for e_ in list(lit.keys) + list(lit.values) if e_ is not None)
+                    if not (_mutable_literal(lit, empty_only=True) or value_like):
+                        continue
+                    for h in inner:
+                        if lname in _bindings(h) or lname in _params(h):
+                            continue
+                        uses = [(nd, how) for nd, how in _handed_out(h, lname) if how in ('returned', 'yielded')]
+                        for nd, how in _handed_out(h, lname):
+                            if how.startswith('stored in ') and isinstance(nd, ast.Assign):
+                                for t in nd.targets:
+                                    if isinstance(t, ast.Subscript) and isinstance(t.value, ast.Name) and t.value.id in _params(h):
+                                        uses.append((nd, 'handed out through %s' % src(t)))
+                        if not uses:
+                            continue
+                        n += 1
+                        node, how = uses[0]
+                        res.ob(RULE, '%s.%s' % key, 'decorator %s: its closure hands out %s' % (g.name, lname), False)
+                        res.violation(RULE, '%s:%s:shared-closure:%s' % (gm.name, g.name, lname), gm.where(node),
+                                      '%s: %s is replaced, when the module is imported, by a closure of the decorator %s, and the %s = %s of the '
+                                      'decorator\'s scope is %s - one object shared by every call, so what one caller does with the result changes '
+                                      'what later calls return' % (label, f.name, g.name, lname, src(lit)[:40], how), func=key[1])
     return n
 
 
